@@ -36,6 +36,14 @@ CHECKS = {
    technique="explicit-state exploration by re-execution at two levels: the real in-memory ConsumerGroup (all add/delete/repartition/next-partition histories up to depth 5-6) and the real System with three sessions (join/leave/disconnect/add-/remove-partition/poll/send histories up to depth 4-5); invariant oracle",
    text="After every step the assignment read from the group must be exclusive, covering and balanced within one; a partition-less poll must be served from the member's own share, each of its partitions in turn between two reassignments; with next + auto-commit every poll must hand out exactly the next offsets of its partition for the group as a whole (none twice, none skipped), whichever member polls and however membership and partition count change in between.",
    note="Trusted base: invariant checkers. Member order depends on a randomly seeded hash map, so histories are never compared with a predicted assignment. Sessions come from System::add_client."),
+ "C09": dict(cat="exploration", engine="E-enum/permissions", design="§5 C09",
+   technique="exhaustive input-domain enumeration: all 1 180 672 permission records x all 35 real rule functions x 4 targets with algebraic oracles (no panic, monotonicity, isolation, id symmetry, root, documented-hierarchy upper bound); plus exhaustive operation x session-state tables on the real System and over TCP",
+   text="The complete space of permission records (2^10 global x optional stream record 2^6 x topic table none/empty/2^4) is evaluated by every real rule function; adding any single flag or record must never turn allowed into denied, stream-1/topic-1 records must never open stream 2/topic 2, stream-level outcomes must not depend on which topic id a topic record is attached to, root is allowed everything, and nothing may be allowed that the most generous reading of the documented hierarchy does not grant. Every System operation is run under never-logged-in and stale sessions (must be refused, nothing may change) and as a user with each single-flag record (never performed when its rule says unauthorized); every SDK call is tried over TCP before login and after logout; permission updates and user deletion are observed on an already open second connection; root cannot be deleted or stripped.",
+   note="Trusted base: the 35-row reference table of sufficient flags (ambiguities resolved towards 'allowed', so it can only under-report); HTTP routes not covered in this revision."),
+ "C17": dict(cat="exploration", engine="E-enum/partition-selection", design="§5 C17",
+   technique="exhaustive input-domain enumeration on the real System: all 1- and 2-byte keys and patterned keys of every length x partition counts 1..16 (thorough: +100, 1000); all boundary partition ids; all balanced-send/partition-change histories up to depth 7-9",
+   text="Every key is sent twice as a two-message batch to topics with every partition count; after each send exactly one existing partition must have grown by two and it must be the same partition both times; full polls at the end confirm every message sits where it was counted and nowhere else. Partition ids 0, 1, count, count+1, u32::MAX must store exactly there or be rejected with nothing stored. Consecutive balanced sends on an unchanged topic must rotate through 1..n for every history of sends and partition additions/removals up to the depth.",
+   note="Trusted base: placement is read from per-partition message counters after each send and confirmed by full polls at the end; no concurrent sender."),
  "C10": dict(cat="model_checking", engine="E-seq/catalogue", design="§5 C10",
    technique="explicit-state exploration by re-execution over real TCP connections: all histories of user/password/status/token/clock/restart operations up to a depth; after every step every candidate credential is tried and every data file is byte-searched for secrets",
    text="After every step of every history each username x password combination, every raw token ever issued and a forged token are tried on fresh connections and compared with a validity model (exists, active, current password / not deleted, owner active, not expired); a login-get_me-logout-get_me probe checks de-authentication; all files are searched for passwords and raw tokens in plain, hex and base64 form; restarts are part of the alphabet, so credentials must behave identically before and after.",
